@@ -469,7 +469,9 @@ func buildChainContainer(cs chainCase, instrument bool) *restful.Container {
 	nAll := cs.Lv[0] + cs.Lv[1] + cs.Lv[2]
 	genPanicVal = cs.PanicVal
 	c := restful.NewContainer()
-	c.DoNotRecover(!cs.Rec)
+	// flipAfter: both run-time switches have the other value while everything is registered
+	c.DoNotRecover((!cs.Rec) != cs.FlipAfter)
+	defer c.DoNotRecover(!cs.Rec)
 	c.EnableContentEncoding(cs.CEnc != cs.FlipAfter)
 	defer c.EnableContentEncoding(cs.CEnc)
 	if cs.RecStatus > 0 {
@@ -1082,6 +1084,9 @@ func randomChainCase(r *rand.Rand, mode string) chainCase {
 		if cs.Payload > 70000 {
 			cs.Payload = 70000
 		}
+	}
+	if mode == "panic" {
+		cs.FlipAfter = r.Intn(3) == 0
 	}
 	if mode == "enc" {
 		cs.Copy = r.Intn(4) == 0
